@@ -50,7 +50,7 @@ PROPS = {
                 release=False, leak_free=False),
     "C09": dict(families=["lazy"], keys=["out", "ret", "len", "snap", "ev_user"], cfgs=any_cfg,
                 release=False, leak_free=True),
-    "C08": dict(families=["clone", "clonefuse"], keys=["out", "len", "snap", "ev_clone", "ev_drop"], cfgs=any_cfg,
+    "C08": dict(families=["clone", "clonefuse"], keys=["out", "len", "cap", "snap", "ev_clone", "ev_drop", "ev_backend"], cfgs=any_cfg,
                 release=False, leak_free=True),
     "C10": dict(families=["capacity", "liar", "random"], keys=["out", "len", "cap", "snap"], cfgs=is_resizable,
                 release=True, leak_free=True),
